@@ -209,6 +209,26 @@ def r5(ctx, backpressure=True):
         ctx.ob('C12.R5', sl, 'the checked properties belong to the frame that is written', okp, 'dequeue/check/write names disagree', why)
         other_sub = [i for i, e in enumerate(ev) if e.kind == 'call' and call_attr(e.node) in ('Subscribe', '_WatchTimeout') and i > w[0]]
         ctx.ob('C12.R5', sl, 'no timeout subscription after the write', not other_sub, 'subscription after the write at %s' % other_sub, why)
+    if w and hc:
+      # a reply (e.g. a duplicated one) may arrive for a frame that is still queued: the reply path neutralises Tag.KEY (= None) and
+      # returns the tag to the pool, where the next request may take it; such a frame must not be written any more
+      def live_tag(evs):
+        for j, c in enumerate(evs):
+          if c.kind != 'cond':
+            continue
+          t_ = resolved_text(evs, j, c.node)
+          if 'Tag.KEY' in t_ and ((t_.endswith('isNone') and not c.info) or (t_.endswith('isnotNone') and c.info)):
+            return True
+        return False
+      ok_tag = live_tag(ev[:w[0]])
+      if not ok_tag:
+        # or inside _HandleTimeout: every "live" (False) return has seen the tag still registered
+        falses = by_ret[False]
+        ok_tag = bool(falses) and all(live_tag(p_) for p_ in falses)
+      ctx.ob('C12.R5', sl, 'a frame answered while still queued (Tag.KEY neutralised) is not written', ok_tag,
+             'the send loop writes a queued frame without testing that its tag is still registered: a duplicated reply for tag t that arrives while the new '
+             'holder of t is queued frees t again, the frame is still written, and the next request is written with t as well',
+             'no two unanswered requests on a connection carry the same tag, for every interleaving incl. duplicated replies (C11)')
     if w and hc and backpressure:
       # the socket write may block on back-pressure before a single byte is accepted; the liveness check is only
       # meaningful if it is made when the socket can take the frame: a wait-for-writable between dequeue and check
